@@ -190,7 +190,7 @@ def main():
     if bres:
         for v in bres["violations"]:
             ident = "%s::%s" % (v["part"], v["clause"])
-            k = known_match(known, prop, "bounded", ident)
+            k = known_match(known, prop, "bounded", v["clause"])
             if k is not None:
                 known_lines.append("KNOWN-FINDING: property=%s %s: %s (witness %s)" % (prop, ident, k.get("what", v["what"]), json.dumps(v["case"], default=str)[:200]))
                 continue
@@ -243,8 +243,9 @@ def main():
     ev = dict(property_id=prop, tier=tier, seed=seed, level=P["level"], coverage=cov,
               assumptions=sorted(set(P.get("assumptions", []) + props.COMMON_ASSUMPTIONS + [x for r in results for x in r["assumptions"]])),
               wall_s=round(wall, 2), violations=len(violations))
-    os.makedirs(os.path.join(HERE, "evidence"), exist_ok=True)
-    with open(os.path.join(HERE, "evidence", prop + ".json"), "w") as f:
+    evdir = os.environ.get("VERIF_EVIDENCE_DIR") or os.path.join(HERE, "evidence")
+    os.makedirs(evdir, exist_ok=True)
+    with open(os.path.join(evdir, prop + ".json"), "w") as f:
         json.dump(ev, f, indent=1, default=str)
 
     # ------------------------------------------------------------ report
